@@ -196,9 +196,32 @@ func run(in Input) lib.Result {
 		NonTrivial: splits >= 1 && puts >= 2,
 		Feat: map[string]interface{}{"splits": splits, "reloads": reloads, "probes": probes, "puts": puts,
 			"max_name_len_class": lenClass(maxLen), "repeated_names": repeats, "reload_after_split": reloadAfterSplit,
-			"caller_buffer_reused": in.Reuse, "batched_puts_class": bigClass(batched), "max_serialized_4k_pages": maxSer / 4096},
+			"caller_buffer_reused": in.Reuse, "trie_depth_class": bigDepth(depthOf(d.VerifDump())), "batched_puts_class": bigClass(batched), "max_serialized_4k_pages": maxSer / 4096},
 		Crash: crash,
 	}
+}
+
+func bigDepth(n int) string {
+	switch {
+	case n < 16:
+		return "<16"
+	case n < 32:
+		return "16-31"
+	case n < 64:
+		return "32-63"
+	default:
+		return ">=64"
+	}
+}
+
+func depthOf(n *dict.VerifNode) int {
+	d := 0
+	for _, c := range n.Children {
+		if x := depthOf(c); x > d {
+			d = x
+		}
+	}
+	return d + 1
 }
 
 func bigClass(n int) string {
@@ -255,6 +278,40 @@ func genBig(r *rand.Rand) Input {
 		}
 	}
 	flush(true)
+	return in
+}
+
+// deep chain: names that are successive one- or two-byte extensions of each other (40-150 levels), inserted
+// longest-first or shortest-first (or shuffled), plus branches off the chain, with save/reload in between
+func genDeep(r *rand.Rand) Input {
+	in := Input{Reuse: r.Intn(2) == 0}
+	levels := lib.Range(r, 40, 150)
+	var chain [][]byte
+	cur := []byte{}
+	for i := 0; i < levels; i++ {
+		for j := lib.Range(r, 1, 2); j > 0; j-- {
+			cur = append(cur, "abc"[r.Intn(3)])
+		}
+		chain = append(chain, append([]byte{}, cur...))
+	}
+	switch r.Intn(3) {
+	case 0: // longest first: every later name splits a node
+		for i, j := 0, len(chain)-1; i < j; i, j = i+1, j-1 {
+			chain[i], chain[j] = chain[j], chain[i]
+		}
+	case 1: // shortest first: every name appends a child one level deeper
+	default:
+		r.Shuffle(len(chain), func(i, j int) { chain[i], chain[j] = chain[j], chain[i] })
+	}
+	half := len(chain) / 2
+	in.Ops = append(in.Ops, Op{K: "puts", Ns: chain[:half]}, Op{K: "reload"}, Op{K: "puts", Ns: chain[half:]}, Op{K: "reload"})
+	var branches [][]byte
+	for i := lib.Range(r, 3, 12); i > 0; i-- {
+		p := chain[r.Intn(len(chain))]
+		b := append(append([]byte{}, p[:r.Intn(len(p)+1)]...), 'x', byte('0'+r.Intn(10)))
+		branches = append(branches, b)
+	}
+	in.Ops = append(in.Ops, Op{K: "puts", Ns: branches}, Op{K: "reload"}, Op{K: "put", D: append(append([]byte{}, cur...), 'z')})
 	return in
 }
 
@@ -380,6 +437,9 @@ func randProbe(r *rand.Rand, issued [][]byte) []byte {
 func gen(r *rand.Rand, idx int, tier string) Input {
 	if idx%300 == 150 {
 		return genBig(r)
+	}
+	if idx%150 == 75 {
+		return genDeep(r)
 	}
 	var in Input
 	in.Reuse = r.Intn(2) == 0
